@@ -94,8 +94,11 @@ impl Exp {
                 }
                 BinOp::Mul => {
                     if let Exp::Number(coefficient) = &**lhs {
-                        // exact test: near-zero coefficients are still meaningful scales
-                        if *coefficient == 0.0 {
+                        // exact test: near-zero coefficients are still meaningful scales.
+                        // A factor that may be undefined (a division by zero or by a
+                        // non-constant, an empty aggregation) is still lowered, so that
+                        // its error is reported instead of being multiplied away.
+                        if *coefficient == 0.0 && !rhs.may_be_undefined() {
                             return Ok(LinearizationContext::from_rhs(0.0));
                         }
                         let mut rhs = rhs.linearize(
@@ -105,7 +108,7 @@ impl Exp {
                         rhs.mul_by(*coefficient);
                         Ok(rhs)
                     } else if let Exp::Number(coefficient) = &**rhs {
-                        if *coefficient == 0.0 {
+                        if *coefficient == 0.0 && !lhs.may_be_undefined() {
                             return Ok(LinearizationContext::from_rhs(0.0));
                         }
                         let mut lhs = lhs.linearize(
